@@ -204,6 +204,13 @@ type SNode struct {
 	Type   string    `json:"type"`
 	Module string    `json:"module"`
 	When   string    `json:"when"`
+	Enums  []EnumDef `json:"enums"` // enumeration: labels with assigned values; bits: labels with positions
+	Bases  []string  `json:"ids"`   // identityref: every identity the leaf accepts
+}
+
+type EnumDef struct {
+	L string `json:"l"`
+	V int    `json:"v"`
 }
 
 type Schema []SNode
